@@ -1,6 +1,6 @@
 (* C17 - Tracker events are a faithful, well-nested account of the build.  Property theorems only. *)
 From Coq Require Import List NArith ZArith Bool.
-From PieV Require Import Model.Dag Model.Build Model.Tracker Proofs.TrackerP.
+From PieV Require Import Model.Dag Model.Build Model.Tracker Proofs.TrackerP Proofs.Trace Proofs.Local2.
 Import ListNotations.
 Open Scope N_scope.
 
@@ -48,3 +48,49 @@ Theorem C17_find_map_first : forall (A : Type) (f : tevent -> option A) l x,
   find_map f l = Some x <-> exists l1 e l2, l = l1 ++ e :: l2 /\ f e = Some x /\ forall e0, In e0 l1 -> f e0 = None.
 Proof. exact @find_map_first. Qed.
 Print Assumptions C17_find_map_first.
+
+(* ---- the stream of every build is properly nested, for ALL programs, checkers, worlds and fuel ----
+   balanced: the grammar  S ::= empty | atom | start S matching-end | S S   where an atom is a schedule_task event or a
+   dangling ReadStart/WriteStart (a read/write whose stamping failed: the code emits no end for it).
+   The stream is stored newest first; seg is the chronological segment the build appended. *)
+Theorem C17_nested_top_down : forall RC OC P always fuel w t,
+  match session_require RC OC P always fuel w t with
+  | Done _ w' => exists seg, trace w' = rev seg ++ trace w /\ balanced seg
+  | Abort _ w' => exists seg, trace w' = rev seg ++ trace w /\ pbal seg          (* a prefix of a balanced stream *)
+  | OutOfFuel => True
+  end.
+Proof. exact session_require_okD. Qed.
+Print Assumptions C17_nested_top_down.
+
+Theorem C17_nested_bottom_up : forall RC OC P fuel w changed,
+  match session_bottom_up RC OC P fuel w changed with
+  | Done _ w' => exists seg, trace w' = rev seg ++ trace w /\ balanced seg
+  | Abort _ w' => exists seg, trace w' = rev seg ++ trace w /\ pbal seg
+  | OutOfFuel => True
+  end.
+Proof. exact session_bottom_up_okD. Qed.
+Print Assumptions C17_nested_bottom_up.
+
+(* every nested require, at any depth, likewise (the induction behind the two theorems above) *)
+Theorem C17_nested_require : forall RC OC P fuel w t c,
+  match require_td RC OC P fuel w t c with
+  | Done _ w' => exists seg, trace w' = rev seg ++ trace w /\ balanced seg
+  | Abort _ w' => exists seg, trace w' = rev seg ++ trace w /\ pbal seg
+  | OutOfFuel => True
+  end.
+Proof. exact require_td_okD. Qed.
+Print Assumptions C17_nested_require.
+
+(* a require-end event carries the value returned to the caller (and the stamp the dependency is updated with) *)
+Theorem C17_require_end_value : forall OC mc w t c o w',
+  require_with OC mc w t c = Done o w' ->
+  exists w3 w4, mc w3 t = Done o w4 /\
+    update_require_dependency (emit w4 (ERequireEnd t c (oc_stamp (OC c) o) o)) t c (oc_stamp (OC c) o) = Done tt w'.
+Proof. exact require_with_done. Qed.
+Print Assumptions C17_require_end_value.
+
+Example C17_balanced_witness :
+  balanced [EBuildStart; ERequireStart 1 2; EExecStart 1; EReadStart 3 5; EReadStart 4 0; EReadEnd 4 0 7; ESchedTask 9;
+            EExecEnd 1 8; ERequireEnd 1 2 0 8; EBuildEnd].
+Proof. exact balanced_witness. Qed.
+Print Assumptions C17_balanced_witness.
